@@ -72,12 +72,18 @@ def gen_case(rng: random.Random, tier):
             text = '[[' + text + ']]'
     elif kind == 'valid_address':
         n = rng.randint(addr_bits, addr_bits + 6)
-        opcfg = {'type': 'numeric', 'argument': gen.gen_arg_cfg(rng, de, size=n)}
+        # the flag is honoured by every operand type that takes a numeric argument: plain, [indirect] and [[deferred]]
+        t = rng.choice(['numeric', 'numeric', 'indirect_numeric', 'deferred_numeric'])
+        opcfg = {'type': t, 'argument': gen.gen_arg_cfg(rng, de, size=n)}
         opcfg['argument']['valid_address'] = True
         v = pick_boundary(rng, gstart, gend)
         arg = {'src': {'k': 'zone', 'v': v, 'zs': gstart, 'ze': gend}, 'n': n,
                'align': opcfg['argument']['byte_align'], 'little': gen.arg_little(opcfg['argument'], de)}
         text = gen.lit(rng, v)
+        if t == 'indirect_numeric':
+            text = '[' + text + ']'
+        elif t == 'deferred_numeric':
+            text = '[[' + text + ']]'
     elif kind == 'addr_zone':
         n = rng.randint(addr_bits, addr_bits + 6)
         opcfg = {'type': 'address', 'argument': gen.gen_arg_cfg(rng, de, size=n)}
